@@ -120,8 +120,13 @@ def c04LabelInvariant (s : SyncCase) : Option String :=
   if !s.composite then none else
   match s.mainHook, selectorOfCase s with
   | some h, some sel =>
-      if s.cfg.generateSelector then none else
-      let bad := (s.respChildren h).any (fun d => !sel.matches (labelsOf d))
+      -- with selector generation the selector is controller-uid = <parent UID>, and that label is added to a desired
+      -- child that lacks it: only a child carrying another value fails to match
+      let bad := if s.cfg.generateSelector then
+          (s.respChildren h).any (fun d => match lookup "controller-uid" ((getLabels d).getD []) with
+            | some v => !(v == J.str s.parentUID)
+            | none => false)
+        else (s.respChildren h).any (fun d => !sel.matches (labelsOf d))
       if bad && s.cfg.anyRolling == false then
         orElse (check (s.outcome == "error") "a desired child not matching the parent's selector was not rejected") fun _ =>
         check (!(s.calls.any (fun r => r.idx > h.idx && s.isDependent r && r.isWrite)))
